@@ -881,12 +881,30 @@ impl MachineState {
 
         let end_cell = heap_pstr_iter.heap[heap_pstr_iter.focus()];
 
-        if heap_pstr_iter.is_cyclic() || end_cell != empty_list_as_cell!() {
+        if heap_pstr_iter.is_cyclic() {
             let err = self.type_error(ValidType::List, a1);
             return Err(self.error_form(err, stub_gen()));
         }
 
-        Ok(chars)
+        if end_cell == empty_list_as_cell!() {
+            return Ok(chars);
+        }
+
+        // the characters can be followed by ordinary list cells, as in [a,b,1]
+        read_heap_cell!(end_cell,
+            (HeapCellValueTag::Lis, l) => {
+                self.try_from_inner_list(chars, l, stub_gen, a1)
+            }
+            _ => {
+                let err = if end_cell.is_var() {
+                    self.instantiation_error()
+                } else {
+                    self.type_error(ValidType::List, a1)
+                };
+
+                Err(self.error_form(err, stub_gen()))
+            }
+        )
     }
 
     // returns true on failure.
